@@ -247,6 +247,8 @@ def run(ctx):
     others(ctx, rnd)
     kwargs_replay(ctx)
     trace_validation(ctx, rnd)
+    from . import selector
+    selector.run(ctx)            # observations about as_mpl_selector (not part of C18's statement): never a violation
     ctx.assumptions += ['matplotlib Path.contains_points at scale 1e4; a 1e-3 relative band around Bezier-approximated circles/ellipses is not compared',
                         'rotation angles are rational directions; sizes dyadic']
 
